@@ -580,6 +580,7 @@ def run_instr(im, attr, name, text, table, defs_ok=True):
 
 
 def gen_tables(ctx):
+    common.source_tie('C12')  # small pure functions translated from the source and proved equal to the model (DESIGN 12.8)
     """(T) fail-closed: any exception aborts the check"""
     from exactly_lib.tcfs import relative_path_options as rpo, relativity_root, path_relativity as pr
     from exactly_lib.tcfs.path_relativity import RelOptionType
